@@ -2,8 +2,11 @@ package props
 
 import (
 	"encoding/json"
+	"fmt"
+	"sort"
 	"strconv"
 	"strings"
+	"sync"
 
 	"pault.ag/go/debian/control"
 	"pault.ag/go/debian/dependency"
@@ -304,5 +307,98 @@ func volumeDeps(c *core.C, t *core.T, vc volCase) {
 	}
 	t.Light(int64(vc.N) - 1)
 	c.CoverN("volume:dependency-fields-parsed-in-one-process", int64(vc.N))
+	c.Nontrivial()
+}
+
+// sortMix: 8 goroutines, each sorting slices of its own (nobody else touches them) with the provided adapter, all
+// at the same time; afterwards every result must be a non-decreasing permutation of what went in.  Between the
+// start and the join no goroutine touches anything shared with another one (the race detector of the thorough tier
+// would take harness synchronisation for an ordering), so whatever couples them is the library's.
+func sortMix(c *core.C, t *core.T, vc volCase) {
+	const G = 8
+	type outcome struct{ msg string }
+	res := make([]outcome, G)
+	var wg sync.WaitGroup
+	for g := 0; g < G; g++ {
+		wg.Add(1)
+		go func(g int) {
+			defer wg.Done()
+			r := core.NewRand(vc.Seed, "sortmix", fmt.Sprint(g))
+			for k := 0; k < vc.N/G && res[g].msg == ""; k++ {
+				n := 50 + r.Intn(400)
+				in := make(version.Slice, n)
+				count := map[version.Version]int{}
+				for i := range in {
+					_, w := volVersion(r)
+					in[i] = libVer(w)
+					count[in[i]]++
+				}
+				sort.Sort(in)
+				for i := range in {
+					count[in[i]]--
+					if i > 0 && version.Compare(in[i-1], in[i]) > 0 {
+						res[g].msg = fmt.Sprintf("goroutine %d, slice %d: after sort.Sort element %d (%v) > element %d (%v)", g, k, i-1, in[i-1], i, in[i])
+					}
+				}
+				for v, d := range count {
+					if d != 0 && res[g].msg == "" {
+						res[g].msg = fmt.Sprintf("goroutine %d, slice %d of %d elements: after sort.Sort the slice is not a permutation of what went in (%v occurs %+d times too often)", g, k, n, v, -d)
+					}
+				}
+			}
+		}(g)
+	}
+	wg.Wait()
+	for _, o := range res {
+		if o.msg != "" {
+			c.Failf("while 8 goroutines sorted slices of their own at once: %s", o.msg)
+		}
+	}
+	t.Light(int64(vc.N) - 1)
+	c.CoverN("conc:disjoint-slices-sorted-by-8-goroutines-at-once", int64(vc.N))
+	c.Nontrivial()
+}
+
+// satMix: 8 goroutines ask SatisfiedBy about constraints with DIFFERENT numbers at the same time (each goroutine
+// alternates between a few of its own); every answer must be the reference comparator's.
+func satMix(c *core.C, t *core.T, vc volCase) {
+	const G = 8
+	res := make([]string, G)
+	var wg sync.WaitGroup
+	for g := 0; g < G; g++ {
+		wg.Add(1)
+		go func(g int) {
+			defer wg.Done()
+			r := core.NewRand(vc.Seed, "satmix", fmt.Sprint(g))
+			type num struct {
+				text string
+				v    model.Ver
+			}
+			var mine []num
+			for k := 0; k < 3; k++ {
+				text, v := volVersion(r)
+				mine = append(mine, num{text, v})
+			}
+			for k := 0; k < vc.N/G && res[g] == ""; k++ {
+				n := mine[(k/7)%len(mine)] // a run of 7 questions about one number, then the next
+				_, v := volVersion(r)
+				op := volOps[r.Intn(len(volOps))]
+				got := dependency.VersionRelation{Operator: op, Number: n.text}.SatisfiedBy(libVer(v))
+				sign, _ := model.RefCmp(v, n.v)
+				want := map[string]bool{"<<": sign < 0, "<=": sign <= 0, "=": sign == 0, ">=": sign >= 0, ">>": sign > 0}[op]
+				if got != want {
+					res[g] = fmt.Sprintf("goroutine %d, question %d: (%s %s).SatisfiedBy(%v) = %v, reference %v", g, k, op, n.text, v, got, want)
+				}
+			}
+		}(g)
+	}
+	wg.Wait()
+	for _, m := range res {
+		if m != "" {
+			c.Failf("while 8 goroutines asked about different numbers at once: %s", m)
+		}
+	}
+	t.Light(int64(vc.N) - 1)
+	c.CoverN("conc:different-numbers-asked-by-8-goroutines-at-once", int64(vc.N))
 	c.Nontrivial()
 }
